@@ -22,6 +22,17 @@ if ! go build ./... 2>&1 | tail -5; then echo "RESULT build-failed"; exit 1; fi
 go vet ./... >/dev/null 2>&1 || true
 mut_fail=$(go test -count=1 "${PKGS[@]}" 2>&1 | grep -E '^\s*--- FAIL' | sed -E 's/ \([0-9.]+s\)//' | sort -u)
 new_fail=$(comm -13 <(echo "$base_fail") <(echo "$mut_fail"))
+# flaky tests (fixed ports, timing under load): re-run each newly failing top-level test alone,
+# twice, with the change applied; keep only those that fail again both times
+if [ -n "$new_fail" ]; then
+  still=""
+  for t in $(echo "$new_fail" | sed -E 's/^\s*--- FAIL: ([A-Za-z0-9_]+).*/\1/' | sort -u); do
+    ok=0
+    for k in 1 2; do go test -count=1 -run "^${t}\$" "${PKGS[@]}" >/dev/null 2>&1 && ok=1; done
+    [ $ok -eq 0 ] && still="$still --- FAIL: $t"
+  done
+  new_fail="$still"
+fi
 cp "$D/demo_test.go" "$DEST"
 demo_pkg=./$(dirname "$DEST")
 go test -count=1 -run "$RUN" "$demo_pkg" >"$W/demo_with.log" 2>&1; with_rc=$?
